@@ -139,3 +139,5 @@ func replayFile(c *Ctx, path string) {
 		}
 	}
 }
+
+func sortStrings(xs []string) { sort.Strings(xs) }
